@@ -216,15 +216,70 @@ def t_g4(ctx: Ctx, rule: str) -> None:
                {f"{NODE}:TestNode.drop_parent": "the only registrar"})
 
 
+def _postponement(ctx: Ctx):
+    """The `if not X.is_flat() and len(<lists>) > 0: ... continue` that postpones a reversal: (the If, text of the measured expression)."""
+    fn = ctx.repo.func(TOT)
+    for i_ in ast.walk(fn.node):
+        if isinstance(i_, ast.If) and any(isinstance(x, ast.Continue) for x in i_.body) and "is_flat()" in ast.unparse(i_.test):
+            for c in ast.walk(i_.test):
+                if isinstance(c, ast.Compare) and isinstance(c.left, ast.Call) and call_name(c.left) == "len" and len(c.ops) == 1 and isinstance(c.ops[0], ast.Gt) \
+                        and "unexplored" in ast.unparse(c.left):
+                    return i_, ast.unparse(c.left.args[0])
+    raise AnalysisError(f"{TOT}: the postponement of a reversal while flat nodes are unexplored was not found")
+
+
+def t_g5u(ctx: Ctx, rule: str) -> None:
+    """Which flat nodes postpone a reversal: every flat node that can still add children for THIS worker - not yet unrolled for it and to be
+    parsed by it.  (Every worker unrolls a flat node into its own copies; a list built with the worker-agnostic `is_unrolled()` is empty as
+    soon as ANOTHER worker has unrolled the remaining flat tests, the setup node of this worker then looks childless, is reversed, its
+    removable state is removed - and the dependant this worker expands afterwards starts from a state that exists nowhere.)"""
+    fn = ctx.repo.func(TOT)
+    ctx.touch(TOT)
+    _, measured = _postponement(ctx)
+    wname = fn.params()[1] if len(fn.params()) > 1 else "worker"
+    names = [n.id for n in ast.walk(ast.parse(measured, mode="eval")) if isinstance(n, ast.Name)]
+    conds = {}
+    for nm in names:
+        defs = [d for d in ast.walk(fn.node) if isinstance(d, ast.Assign) and len(d.targets) == 1 and isinstance(d.targets[0], ast.Name) and d.targets[0].id == nm
+                and isinstance(d.value, ast.ListComp)]
+        if len(defs) != 1 or len(defs[0].value.generators) != 1 or ast.unparse(defs[0].value.generators[0].iter) != "self.nodes" \
+                or not isinstance(defs[0].value.generators[0].target, ast.Name):
+            raise AnalysisError(f"{TOT}: `{nm}` of the postponement guard is not one list comprehension over self.nodes")
+        g = defs[0].value.generators[0]
+        conds[nm] = norm.conj([norm.formula(c, rename={g.target.id: "_IT"}) for c in g.ifs])
+
+    def expand(f):
+        # `_IT not in <earlier list>` is the negation of that list's condition
+        if f[0] == "atom":
+            for nm, c in conds.items():
+                if f[1] == f"_IT in {nm}":
+                    return c
+            return f
+        if f[0] == "not":
+            return ("not", expand(f[1]))
+        if f[0] in ("and", "or"):
+            return (f[0], tuple(expand(x) for x in f[1]))
+        return f
+
+    covered = norm.disj([expand(c) for c in conds.values()])
+    want = norm.formula(ast.parse(f"_IT.is_flat() and not _IT.is_unrolled({wname}) and _IT.should_parse({wname})", mode="eval").body)
+    ok = norm.implies(want, covered)
+    ctx.record(rule, "GUARD", TOT, "a reversal is postponed while any flat node is not yet unrolled for the traversing worker (and to be parsed by it)", ok,
+               {"measured": measured, "lists": {k: norm.show(v) for k, v in conds.items()}},
+               "" if ok else f"the reversal of a setup node is postponed only while `{measured}` is non-empty, which does not cover the flat nodes this worker has still to unroll "
+               "(unrolled by another worker only): the worker removes its removable state before its own, later expanded dependant has run")
+
+
 def t_g5(ctx: Ctx, rule: str) -> None:
     """reverse_node(X) only when cleanup ready, not postponed, traversed and not to be (re)run, after dropping X in all parents."""
     views = loop_views(ctx)
+    _, measured = _postponement(ctx)
 
     def required(v, i, c):
         x, w = arg(c, 0, "test_node"), _worker_arg(c, 1)
         postponed = norm.conj([
             norm.neg(method_atom(v, i, x, "is_flat", [])),
-            expr_formula(v, i, "len(unexplored_nodes) > 0"),
+            expr_formula(v, i, f"len({measured}) > 0"),
         ])
         return norm.conj([method_atom(v, i, x, "is_cleanup_ready", [w]), norm.neg(postponed)])
 
